@@ -68,6 +68,11 @@ def run(ctx, verdict):
                 raise vlib.Infra("C08: model A emitted no case for %s" % cfg)
             ctx.coverage_extra["model_a"].append(dict(cfg=cfg, cases=len(cs), states=r["distinct"]))
             cases += cs
+    # the same Extend histories started from the first geometry's OWN Bounds() instead of NewBounds(NoLayout).Extend(it):
+    # the statement makes no difference between the two ("bounds of a geometry", "extending bounds")
+    via = [dict(c, viaown=True) for c in cases if c["fam"] == "extend" and c.get("l0") == "No" and len(c["gs"]) >= 2 and "gc" not in c["gs"][0]]
+    ctx.coverage_extra["extend_histories_started_from_own_bounds"] = len(via)
+    cases += via
     vlib.note_cases(ctx, cases, nontrivial=lambda c: c["fam"] != "extend" or len(c["gs"]) > 0)
     obs = pipe(ctx, verdict, cases)
     tally(ctx, obs)
